@@ -385,7 +385,7 @@ Proof.
         pose proof (park_cinv _ _ _ _ HI1 Hrq' H2) as HI2.
         destruct (fdd_caughtup_end _ _ _ _ _ HI HB HM Hrq H1) as (EI & d & Hd & Hend).
         assert (HP2 : ParkInv st2).
-        { eapply park_parkinv; [exact HP1 | | | exact H2]; rewrite EI, D1; eauto. }
+        { apply (park_parkinv st1 id rq' st2 d HP1); [rewrite EI, D1; exact Hd | exact Hend | exact H2]. }
         assert (Hmono : forall l, Forall (RqOk (r_datalog st1)) l -> Forall (RqOk (r_datalog st2)) l).
         { intros l. apply rqsok_mono; [exact (proj1 HI1)|now apply dl_le_same_logs]. }
         assert (HM2 : 1 <= cf_max_outgoing (r_cfg st2)).
@@ -454,6 +454,6 @@ Qed.
 Lemma init_park cfg st : init cfg = Ok st -> ParkInv st.
 Proof.
   unfold init. intros H. apply bind_ok in H as (dl & Hdl & H). inv_ok.
-  destruct (init_datalog_logs _ _ Hdl) as (_ & _ & Hw).
-  intros i d Hd. cbn [r_datalog] in Hd.
-Abort.
+  destruct (init_datalog_logs _ _ Hdl) as (_ & Hw).
+  intros i d Hd. cbn [r_datalog] in Hd. rewrite (Hw _ _ Hd). constructor.
+Qed.
